@@ -78,7 +78,13 @@ def _api_scenario(draw, gen: int):
 @st.composite
 def _when(draw):
     return {"pick": draw(st.integers(0, 10000)), "offset": draw(st.sampled_from([-0.0625, 0.0, 0.0, 0.0625])),
-            "early": draw(st.booleans()), "uniform": draw(st.one_of(st.none(), st.none(), st.integers(0, 800 * 16).map(lambda x: x / 16.0)))}
+            "early": draw(st.booleans()),
+            # third same-instant order: the shutdown timer is registered only 1/64 s before T, i.e. AFTER every timer the
+            # scenario itself created for T (a console answer due at T is delivered first, shutdown starts right behind it)
+            # ... and then lets 0..5 further loop iterations pass inside that instant (the read loop decodes the answer,
+            # the subscriber task is created, its first step runs, ...)
+            "after": draw(st.sampled_from([False, False, True])), "turns": draw(st.integers(0, 7)),
+            "last_answer": draw(st.sampled_from([False, False, False, True])), "uniform": draw(st.one_of(st.none(), st.none(), st.integers(0, 800 * 16).map(lambda x: x / 16.0)))}
 
 
 def _mk_api(case):
@@ -111,6 +117,14 @@ def _instants(rig, extra=()):
     return sorted(ts)
 
 
+def _hop(loop, k, fn):
+    """Run fn after k further loop iterations of the current instant."""
+    if k <= 0:
+        fn()
+    else:
+        loop.call_soon(_hop, loop, k - 1, fn)
+
+
 def _choose(instants, when, horizon):
     if when["uniform"] is not None:
         return min(when["uniform"], horizon), False
@@ -131,9 +145,15 @@ def check_api(case, when, stats: Stats | None):
         rig.start_init()
         rig.loop.advance(horizon)
         instants = _instants(rig, extra=[5.0, 300.0, 330.0, 600.0] + [t + 2.0 for t, _k, _l in case["losses"]])
+        answers = [t for (t, _cid, label, _f) in rig.console.sent if label.startswith("answer:") and t < 6.0]
     finally:
         rig.dispose()
     T, same_instant = _choose(instants, when, horizon)
+    if when.get("last_answer") and answers:
+        # shutdown lands in the instant in which the console's last handshake answer arrives, a few loop iterations
+        # after the delivery (the answer has been read / decoded / is being processed)
+        T, same_instant = answers[-1 - (when["pick"] % min(2, len(answers)))], True
+        when = dict(when, after=True, early=False, uniform=None)
 
     # ---- real run
     rig = None
@@ -159,6 +179,10 @@ def check_api(case, when, stats: Stats | None):
         # (ApiRig construction schedules nothing at T; registering now precedes init's timers)
         rig.loop.call_at(T, fire)
         rig.start_init()
+    elif when.get("after") and T >= 0.015625:
+        rig = build()
+        rig.start_init()
+        rig.loop.call_at(T - 0.015625, lambda: rig.loop.call_at(T, _hop, rig.loop, when.get("turns", 0), fire))
     else:
         rig = build()
         rig.start_init()
@@ -397,6 +421,10 @@ def check_sock(case, when, stats: Stats | None):
         rig.loop.call_at(T, fire)
         rig2, handles = _mk_sock_on(rig, case)
         rig.open()
+    elif when.get("after") and T >= 0.015625:
+        rig, handles = _mk_sock(case)
+        rig.open()
+        rig.loop.call_at(T - 0.015625, lambda: rig.loop.call_at(T, _hop, rig.loop, when.get("turns", 0), fire))
     else:
         rig, handles = _mk_sock(case)
         rig.open()
